@@ -223,6 +223,10 @@ def run_check(spec, tier):
                     runs_out.append(r)
                     continue
                 findings = r["monitor"].get("findings") or []
+                # a monitor clause named after another claimed property is that property's to report
+                from .props import PROPS as _P
+                findings = [f for f in findings
+                            if not (re.match(r"C\d\d-", str(f.get("clause", ""))) and f["clause"][:3] != prop and f["clause"][:3] in _P)]
                 new_findings = []
                 for f in findings:
                     e = match_known(prop, f, known)
